@@ -33,6 +33,11 @@ struct ChainCase {
 	leaf: LeafSpec,
 	t: i64,
 	purpose: &'static str,
+	/// key-identifier method of the CAs (the leaf always asks for an authority key identifier)
+	ca_kid: Kid,
+	/// the leaf is issued from a request it made (parsed, AKI switched on by the issuer) instead of
+	/// with its key
+	via_request: bool,
 }
 
 fn base_ca(nb_year: i32, na_year: i32) -> CaSpec {
@@ -47,6 +52,8 @@ fn base_case(depth2: bool) -> ChainCase {
 		leaf: LeafSpec { sans: vec![San::Dns("a.example.com".into())], eku: vec![ExtendedKeyUsagePurpose::ServerAuth], nb: Dt::ymd(2022, 1, 1), na: Dt::ymd(2038, 1, 1) },
 		t: ts(2025, 6, 1),
 		purpose: "server",
+		ca_kid: Kid::Sha256,
+		via_request: false,
 	}
 }
 
@@ -124,8 +131,9 @@ fn webpki_verdict(chain: &[Vec<u8>], t: i64, purpose: &str) -> Option<(bool, Str
 }
 
 fn run_chain(s: &mut Suite, keys: &[Arc<KeyPair>; 3], c: &ChainCase) {
-	let rootp = ca_params(&c.root, "root ca");
-	let interp = c.inter.as_ref().map(|i| ca_params(i, "intermediate ca"));
+	let mut rootp = ca_params(&c.root, "root ca");
+	rootp.kid = c.ca_kid.clone();
+	let interp = c.inter.as_ref().map(|i| { let mut p = ca_params(i, "intermediate ca"); p.kid = c.ca_kid.clone(); p });
 	let leafp = leaf_params(&c.leaf);
 	let Some(root_real) = rootp.real() else { return };
 	let Ok(root) = root_real.self_signed(&keys[0]) else { return };
@@ -142,11 +150,26 @@ fn run_chain(s: &mut Suite, keys: &[Arc<KeyPair>; 3], c: &ChainCase) {
 		None => (root, &keys[0]),
 	};
 	let Some(lr) = leafp.real() else { return };
-	let Ok(leaf) = lr.signed_by(&*keys[2], &issuer_cert, issuer_key) else { return };
+	let leaf = if c.via_request {
+		let mut rq = leafp.clone();
+		rq.serial = None;
+		rq.aki = false;
+		let Some(Ok(csr)) = rq.real().map(|r| r.serialize_request(&*keys[2])) else { return };
+		let Ok(mut parsed) = CertificateSigningRequestParams::from_der(csr.der()) else { return };
+		parsed.params.use_authority_key_identifier_extension = true;
+		parsed.params.serial_number = lr.serial_number.clone();
+		parsed.params.not_before = lr.not_before;
+		parsed.params.not_after = lr.not_after;
+		let Ok(l) = parsed.signed_by(&issuer_cert, issuer_key) else { return };
+		l
+	} else {
+		let Ok(l) = lr.signed_by(&*keys[2], &issuer_cert, issuer_key) else { return };
+		l
+	};
 	chain_der.push(leaf.der().to_vec());
 	params.push(&leafp);
 	let certs_s = list(&params.iter().zip(chain_der.iter()).map(|(p, d)| list(&[p.sexp(), hex(d)])).collect::<Vec<_>>());
-	let describe = format!("tag={} depth={} t={} purpose={}\nroot={:?}\ninter={:?}\nleaf={:?}", c.tag, chain_der.len() - 1, c.t, c.purpose, c.root, c.inter, c.leaf);
+	let describe = format!("tag={} depth={} t={} purpose={} ca-key-id-method={:?} leaf-issued-from-request={}\nroot={:?}\ninter={:?}\nleaf={:?}", c.tag, chain_der.len() - 1, c.t, c.purpose, c.ca_kid, c.via_request, c.root, c.inter, c.leaf);
 	s.rep.case(&describe, true);
 	s.rep.count(&format!("dimension:{}", c.tag.split(':').next().unwrap_or("")));
 	for (judge, anchor_checks) in [("openssl", true), ("webpki", false)] {
@@ -261,6 +284,9 @@ pub fn run(ctx: &mut Ctx) -> Report {
 			("permit-dns", Some((vec![Subtree::Dns("example.com".into())], vec![]))),
 			("exclude-dns", Some((vec![], vec![Subtree::Dns("example.com".into())]))),
 			("permit-dns-sub", Some((vec![Subtree::Dns("sub.example.com".into())], vec![]))),
+			// a constraint spelled with a leading period admits proper subdomains only
+			("permit-dns-leading-period", Some((vec![Subtree::Dns(".example.com".into())], vec![]))),
+			("exclude-dns-leading-period", Some((vec![], vec![Subtree::Dns(".example.com".into())]))),
 			("permit-ip4", Some((vec![Subtree::Ip4p([192, 0, 2, 0], 24)], vec![]))),
 			("exclude-ip4", Some((vec![], vec![Subtree::Ip4p([192, 0, 2, 0], 24)]))),
 			("permit-ip6", Some((vec![Subtree::Ip6p([0x20, 0x01, 0x0d, 0xb8, 0, 0, 0, 0, 0, 0, 0, 0, 0, 0, 0, 0], 32)], vec![]))),
@@ -303,6 +329,18 @@ pub fn run(ctx: &mut Ctx) -> Report {
 					c.leaf.sans = names.clone();
 					cases.push(c);
 				}
+			}
+		}
+		// D3b: how the chain is keyed: the CAs' key-identifier method x the way the leaf is issued.
+		// Validators that follow the authority key identifier find the issuer only if it is the
+		// issuer's subject key identifier
+		for kid in [Kid::Sha256, Kid::Sha384, Kid::Sha512, Kid::Pre(vec![0xa5; 20]), Kid::Pre(vec![7])] {
+			for via in [false, true] {
+				let mut c = b.clone();
+				c.tag = format!("key-identifiers:{:?}:{}", kid, if via { "leaf-from-request" } else { "leaf-signed-by" });
+				c.ca_kid = kid.clone();
+				c.via_request = via;
+				cases.push(c);
 			}
 		}
 		// D4: EKU against purpose
@@ -357,6 +395,51 @@ pub fn run(ctx: &mut Ctx) -> Report {
 	for (i, c) in cases.iter().enumerate() {
 		if i % step == 0 {
 			run_chain(&mut s, &keys, c);
+		}
+	}
+	// the pair the command-line tool writes, for each combination of its two purpose flags: the
+	// end-entity certificate serves exactly the purposes asked for (no flag: no restriction)
+	{
+		let aws = cfg!(feature = "aws");
+		let cli = std::env::var("VERIF_CLI").unwrap_or_else(|_| format!("/verif/.cache/target-cli-{}/debug/rustls-cert-gen", if aws { "aws" } else { "ring" }));
+		if std::path::Path::new(&cli).exists() {
+			for (client, server) in [(false, false), (true, false), (false, true), (true, true)] {
+				for order in [0, 1] {
+					let dir = format!("/verif/.cache/c12_cli_{}", std::process::id());
+					let _ = std::fs::remove_dir_all(&dir);
+					let mut args: Vec<String> = vec!["-o".into(), dir.clone(), "--san".into(), "a.example.com".into()];
+					let mut flags: Vec<&str> = Vec::new();
+					if client { flags.push("--client-auth"); }
+					if server { flags.push("--server-auth"); }
+					if order == 1 { flags.reverse(); }
+					args.extend(flags.iter().map(|f| f.to_string()));
+					let out = std::process::Command::new(&cli).args(&args).env("RUST_BACKTRACE", "0").output();
+					let ok = out.as_ref().map(|o| o.status.success()).unwrap_or(false);
+					let read = |f: &str| std::fs::read_to_string(format!("{}/{}", dir, f)).ok().and_then(|t| pem::parse(t).ok()).map(|p| p.contents().to_vec());
+					let (Some(ca), Some(ee), true) = (read("root-ca.pem"), read("cert.pem"), ok) else {
+						s.rep.count("cli_pair_unavailable");
+						let _ = std::fs::remove_dir_all(&dir);
+						continue;
+					};
+					let _ = std::fs::remove_dir_all(&dir);
+					let chain = vec![ca, ee];
+					for purpose in ["server", "client"] {
+						let asked = if purpose == "server" { server } else { client };
+						let expected = asked || (!client && !server);
+						let describe = format!("command-line tool with flags {:?}: the pair it wrote, verified for {} authentication\nchain={}", flags, purpose, chain.iter().map(|d| hex(d)).collect::<Vec<_>>().join(" "));
+						s.rep.case(&describe, true);
+						for judge in ["openssl", "webpki"] {
+							let verdict = if judge == "openssl" { openssl_verdict(&chain, 1_750_000_000, purpose) } else { webpki_verdict(&chain, 1_750_000_000, purpose) };
+							let Some((okv, why)) = verdict else { continue };
+							s.rep.count(&format!("cli_pair:{}:{}", judge, if okv { "accept" } else { "reject" }));
+							if okv != expected {
+								s.rep.violate(&format!("C12:{}:cli-pair:{}", judge, if expected { "rejects-valid" } else { "accepts-invalid" }), "an independent validator's verdict on the pair the command-line tool wrote differs from the one its purpose flags imply", format!("{}\njudge={} verdict={} ({}) expected={}", describe, judge, okv, why, expected));
+							}
+						}
+					}
+				}
+			}
+			s.rep.exhaustive.push("the command-line tool's pair for each combination and order of --client-auth / --server-auth, judged for both purposes".into());
 		}
 	}
 	let req = s.drv.requests;
